@@ -2285,7 +2285,7 @@ V(id='c14-outward-final-rounding-nearest', prop='C14', file='mpmath/libmp/libmpi
   old="    return mpf_mul(v, p, prec, rounding)\n\ndef mpi_exp", new="    return mpf_mul(v, p, prec, round_nearest)\n\ndef mpi_exp",
   expect='fire:C-R19:mpf_outward')
 V(id='c14-outward-exact-shortcut-too-wide', prop='C14', file='mpmath/libmp/libmpi.py',
-  old="    if exact_at_integers and args[0][2] >= 0 and bc <= prec:\n", new="    if bc <= prec:\n",
+  old="    if exact_at_integers:\n        sign, man, exp, bc = args[0]\n", new="    if True:\n        sign, man, exp, bc = args[0]\n",
   expect='fire:C-R19:mpf_outward')
 V(id='c14-benign-outward-more-allowance', prop='C14', file='mpmath/libmp/libmpi.py',
   old="        p = from_man_exp((MPZ_ONE<<wp) + (MPZ_ONE<<10), -wp)\n    else:\n        p = from_man_exp((MPZ_ONE<<wp) - (MPZ_ONE<<10), -wp)",
@@ -2491,3 +2491,63 @@ V(id='c35-pslq-rounds-entries', prop='C35', file='mpmath/identification.py',
 V(id='c35-prodstring-falls-off', prop='C35', file='mpmath/identification.py',
   old="    if den: return \"1/(%s)\" % den\n    return '1'\n", new="    if den: return \"1/(%s)\" % den\n",
   expect='fire:Q-R13:prodstring')
+
+# ---- C14 second hunt pass 2: C-R19 exact-table pass-through, C-R20 atan2 corners (fixes 7d559d3, 474e06b, a0650c6) ----
+V(id='c14-outward-short-value-taken-as-exact', prop='C14', file='mpmath/libmp/libmpi.py',
+  old="    sign, man, exp, bc = v\n    if not man:\n        return v\n",
+  new="    sign, man, exp, bc = v\n    if not man:\n        return v\n    if exact_at_integers and args[0][2] >= 0 and bc <= prec:\n        return v\n",
+  expect='fire:C-R19:mpf_outward')
+V(id='c14-outward-exact-bound-beyond-table', prop='C14', file='mpmath/libmp/libmpi.py',
+  old="            (man << exp) < SMALL_FACTORIAL_CACHE_SIZE:\n", new="            (man << exp) < 200:\n",
+  expect='fire:C-R19:mpf_outward')
+V(id='c14-outward-exact-for-negative-integers', prop='C14', file='mpmath/libmp/libmpi.py',
+  old="        if man and not sign and exp >= 0 and exp + bc < 9 and \\\n", new="        if man and exp >= 0 and exp + bc < 9 and \\\n",
+  expect='fire:C-R19:mpf_outward')
+V(id='c14-outward-exact-flag-for-loggamma', prop='C14', file='mpmath/libmp/libmpi.py',
+  old="            c = mpf_outward(mpf_loggamma, (a,), prec, round_floor)\n            d = mpf_outward(mpf_loggamma, (b,), prec, round_ceiling)\n    # decreasing",
+  new="            c = mpf_outward(mpf_loggamma, (a,), prec, round_floor, True)\n            d = mpf_outward(mpf_loggamma, (b,), prec, round_ceiling)\n    # decreasing",
+  expect='fire:C-R19:mpf_outward')
+V(id='c14-gamma-table-reciprocal-not-directed', prop='C14', file='mpmath/libmp/gammazeta.py',
+  old="                return mpf_div(fone, small_factorial_cache[n-1], prec, rnd)\n",
+  new="                return mpf_div(fone, small_factorial_cache[n-1], prec)\n",
+  expect='fire:C-R19:mpf_outward')
+V(id='c14-benign-outward-no-exact-shortcut', prop='C14', file='mpmath/libmp/libmpi.py',
+  old="            (man << exp) < SMALL_FACTORIAL_CACHE_SIZE:\n            return f(*(args + (prec, rounding)))\n",
+  new="            (man << exp) < SMALL_FACTORIAL_CACHE_SIZE:\n            pass\n",
+  expect='silent')
+V(id='c14-atan2-origin-corner-not-handled', prop='C14', file='mpmath/libmp/libmpi.py',
+  old="        if ya == fzero and xb == fzero:\n            # the corner is the origin, where atan2 is 0\n            a = fzero\n        elif mpf_le(xb, fzero):\n",
+  new="        if mpf_le(xb, fzero):\n",
+  expect='fire:C-R20:mpi_atan2')
+V(id='c14-atan2-upper-halfplane-upper-corner', prop='C14', file='mpmath/libmp/libmpi.py',
+  old="        b = mpf_outward(mpf_atan2, (ya, xa), prec, round_ceiling)\n", new="        b = mpf_outward(mpf_atan2, (yb, xa), prec, round_ceiling)\n",
+  expect='fire:C-R20:mpi_atan2')
+V(id='c14-atan2-right-halfplane-lower-corner', prop='C14', file='mpmath/libmp/libmpi.py',
+  old="            a = mpf_outward(mpf_atan2, (ya, xb), prec, round_floor)\n        else:\n            a = mpf_outward(mpf_atan2, (ya, xa), prec, round_floor)\n",
+  new="            a = mpf_outward(mpf_atan2, (ya, xa), prec, round_floor)\n        else:\n            a = mpf_outward(mpf_atan2, (ya, xa), prec, round_floor)\n",
+  expect='fire:C-R20:mpi_atan2')
+V(id='c14-atan2-lower-halfplane-touching-axis', prop='C14', file='mpmath/libmp/libmpi.py',
+  old="    elif mpf_lt(yb, fzero):\n        a = mpf_outward(mpf_atan2, (yb, xa), prec, round_floor)\n",
+  new="    elif mpf_le(yb, fzero):\n        a = mpf_outward(mpf_atan2, (yb, xa), prec, round_floor)\n",
+  expect='fire:C-R20:mpi_atan2')
+V(id='c14-atan2-real-line-mixed-signs-only-pi', prop='C14', file='mpmath/libmp/libmpi.py',
+  old="        return fzero, mpf_pi(prec, round_ceiling)\n", new="        return mpi_pi(prec)\n",
+  expect='fire:C-R20:mpi_atan2')
+V(id='c14-atan2-pi-rounded-down-as-upper', prop='C14', file='mpmath/libmp/libmpi.py',
+  old="        b = mpf_pi(prec, round_ceiling)\n        a = mpf_neg(b)\n", new="        b = mpf_pi(prec, round_floor)\n        a = mpf_neg(b)\n",
+  expect='fire:C-R20:mpi_atan2')
+V(id='c14-benign-atan2-origin-corner-full-circle', prop='C14', file='mpmath/libmp/libmpi.py',
+  old="            # the corner is the origin, where atan2 is 0\n            a = fzero\n",
+  new="            # the corner is the origin, where atan2 is 0\n            a = mpf_neg(mpf_pi(prec, round_ceiling))\n",
+  expect='silent')
+V(id='c14-benign-atan2-endpoints-renamed', prop='C14', file='mpmath/libmp/libmpi.py',
+  edits=[("    ya, yb = y\n    xa, xb = x\n    # Constrained to the real line\n    if ya == yb == fzero:\n        if mpf_ge(xa, fzero):\n            return mpi_zero\n        if mpf_lt(xb, fzero):\n",
+          "    ya, yb = y\n    xlo, xb = x\n    xa = xlo\n    # Constrained to the real line\n    if ya == yb == fzero:\n        if mpf_ge(xa, fzero):\n            return mpi_zero\n        if mpf_lt(xb, fzero):\n")],
+  expect='analysis-error')
+V(id='c14-convert-no-rationals', prop='C14', file='mpmath/ctx_iv.py',
+  old="    if hasattr(x, '_mpq_'):\n        p, q = x._mpq_\n        return from_rational(p, q, prec, rounding)\n    if isinstance(x, numbers.Rational): # e.g. Fraction\n        return from_rational(x.numerator, x.denominator, prec, rounding)\n",
+  new="",
+  expect='fire:C-R6:convert_mpf_')
+V(id='c14-convert-rational-undirected', prop='C14', file='mpmath/ctx_iv.py',
+  old="        return from_rational(x.numerator, x.denominator, prec, rounding)\n", new="        return from_rational(x.numerator, x.denominator, prec)\n",
+  expect='fire:C-R6:convert_mpf_')
